@@ -187,11 +187,18 @@ func c15Program(k int, xs, ys jast.Node) (jast.Node, string) {
 		}
 		return &jast.Array{Items: []jast.Node{big(1e308, 1e308), big(-1e308, -1e308, -1e308, -1e308), big(1.5e308, 1e308), big(1e308, -1e308, 1e308, 5e307),
 			big(1.7976931348623157e308, 1.7976931348623157e308), call("sum", lit(A{1.0, 2.0}))}}, "average-of-large-numbers"
+	case 17:
+		// equal objects with several members (written in different member orders,
+		// nested too): one value, however the members of a Go map come out
+		o1 := lit(O{"a": 1.0, "b": "x", "c": A{1.0, 2.0}, "d": O{"p": 1.0, "q": 2.0, "r": 3.0}})
+		o2 := &jast.Object{Pairs: [][2]jast.Node{{&jast.Str{V: "d"}, lit(O{"r": 3.0, "q": 2.0, "p": 1.0})}, {&jast.Str{V: "c"}, lit(A{1.0, 2.0})}, {&jast.Str{V: "b"}, &jast.Str{V: "x"}}, {&jast.Str{V: "a"}, &jast.Num{V: 1}}}}
+		o3 := lit(O{"a": 1.0, "b": "x", "c": A{1.0, 2.0}, "d": O{"p": 1.0, "q": 2.0, "r": 4.0}})
+		return call("distinct", call("append", &jast.Array{Items: []jast.Node{o1, o2, o3, o1, o2}}, xs)), "distinct-objects-with-several-members"
 	}
 	return call("count", call("shuffle", xs)), "shuffle-count"
 }
 
-func c15NProg() int { return len(c15Callbacks) + 2*len(c15Preds) + 2*len(c15Folds) + 18 }
+func c15NProg() int { return len(c15Callbacks) + 2*len(c15Preds) + 2*len(c15Folds) + 19 }
 
 var c15Pool = []interface{}{1.0, 2.0, 2.0, 3.0, -1.0, 0.5, "1", "a", "a", "", true, false, A{1.0}, A{1.0}, A{A{1.0}}, A{}, O{"a": 1.0}, O{"a": 1.0}, O{"a": "1"}, O{}, 1e21,
 	// zero with and without sign inside containers (equal by value)
